@@ -1,0 +1,262 @@
+//! Verification hooks (`--cfg rosu_pp_verif`): what the four osu!taiko skills
+//! read of the preprocessed difficulty objects, as plain per-object records,
+//! and the per-object strains of the five skill instances.
+//!
+//! Wrappers only; no behaviour is added or changed.
+
+use rosu_map::section::general::GameMode;
+
+use crate::{
+    any::difficulty::object::IDifficultyObject, model::mode::ConvertError, taiko::convert,
+    util::sync::Weak, Beatmap, Difficulty,
+};
+
+use super::DifficultyValues;
+
+/// The first object of a `SameRhythmHitObjectGrouping`: what `RhythmEvaluator` reads.
+#[derive(Clone, Debug, PartialEq)]
+pub struct RhythmGroupRecord {
+    /// `hit_object_interval_ratio`
+    pub interval_ratio: f64,
+    /// `hit_objects.len()`
+    pub len: usize,
+    /// `duration()`
+    pub duration: Option<f64>,
+    /// `hit_object_interval` of this group, its previous group, ... (at most four groups)
+    pub interval_chain: Vec<Option<f64>>,
+}
+
+/// Everything the skills read of one preprocessed `TaikoDifficultyObject`.
+#[derive(Clone, Debug, PartialEq)]
+pub struct TaikoSkillRecord {
+    pub idx: usize,
+    pub start_time: f64,
+    pub delta_time: f64,
+    pub is_hit: bool,
+    pub effective_bpm: f64,
+    /// `rhythm_data.ratio`
+    pub ratio: f64,
+    /// `previous(0)` / `previous(1)` start times
+    pub prev_start: Option<f64>,
+    pub prev2_start: Option<f64>,
+    /// position of the object in its mono streak (`0` without one)
+    pub mono_index: usize,
+    /// start times of `previous_mono(curr, 1)` / `previous_mono(curr, 7)`
+    pub prev_mono_start_2: Option<f64>,
+    pub prev_mono_start_8: Option<f64>,
+    /// start times of `color_data.previous_color_change` / `next_color_change`
+    pub prev_color_change_start: Option<f64>,
+    pub next_color_change_start: Option<f64>,
+    /// `Some` iff the object is the first of its mono streak:
+    /// `(idx, parent alternating pattern (idx, parent repetition interval))`
+    pub mono_first: Option<(usize, Option<(usize, Option<usize>)>)>,
+    /// `Some` iff the object is the first of its alternating mono pattern
+    pub alt_first: Option<(usize, Option<usize>)>,
+    /// `Some(repetition_interval)` iff the object is the first of its repeating hit patterns
+    pub rep_first: Option<usize>,
+    /// `Some` iff the object is the first of its same-rhythm group
+    pub rhythm_first: Option<RhythmGroupRecord>,
+    /// `Some(interval_ratio())` iff the object is the first of its same-patterns group
+    pub pattern_first_ratio: Option<f64>,
+}
+
+/// Inputs and per-object outputs of the five taiko skill instances for a map.
+#[derive(Clone, Debug, PartialEq)]
+pub struct TaikoSkillTrace {
+    pub great_hit_window: f64,
+    pub is_convert: bool,
+    /// how many difficulty objects `DifficultyValues::calculate` processes
+    pub n_processed: usize,
+    pub records: Vec<TaikoSkillRecord>,
+    pub rhythm: Vec<f64>,
+    pub reading: Vec<f64>,
+    pub color: Vec<f64>,
+    pub stamina: Vec<f64>,
+    pub single_color_stamina: Vec<f64>,
+}
+
+/// Prepares the map exactly like `taiko::difficulty::difficulty`, records the
+/// preprocessed objects and runs `DifficultyValues::calculate`.
+pub fn skill_trace(difficulty: &Difficulty, map: &Beatmap) -> Result<TaikoSkillTrace, ConvertError> {
+    let mut map = map.convert_ref(GameMode::Taiko, difficulty.get_mods())?;
+
+    if let Some(seed) = difficulty.get_mods().random_seed() {
+        convert::apply_random_to_beatmap(map.to_mut(), seed);
+    }
+
+    let great_hit_window = map
+        .attributes()
+        .difficulty(difficulty)
+        .hit_windows()
+        .od_great;
+
+    let mut n_diff_objects = 0;
+    let mut max_combo = 0;
+
+    let objects = DifficultyValues::create_difficulty_objects(
+        &map,
+        difficulty.get_passed_objects() as u32,
+        difficulty.get_clock_rate(),
+        &mut max_combo,
+        &mut n_diff_objects,
+        difficulty.get_mods(),
+    );
+
+    let n_processed = n_diff_objects.saturating_sub(1);
+
+    let records = objects
+        .iter()
+        .map(|o| {
+            let h = o.get();
+            let color = &h.color_data;
+            let mono = color.mono_streak.as_ref().and_then(Weak::upgrade);
+
+            let mono_index = mono
+                .as_ref()
+                .and_then(|mono| {
+                    mono.get()
+                        .hit_objects
+                        .iter()
+                        .position(|x| x.upgrade().is_some_and(|x| x.get().idx == h.idx))
+                })
+                .unwrap_or(0);
+
+            let alt_info = |alt: &crate::util::sync::RefCount<_>| {
+                let alt: crate::util::sync::Ref<'_, super::color::data::alternating_mono_pattern::AlternatingMonoPattern> = alt.get();
+
+                (
+                    alt.idx,
+                    alt.parent
+                        .as_ref()
+                        .and_then(Weak::upgrade)
+                        .map(|rep| rep.get().repetition_interval),
+                )
+            };
+
+            let mono_first = mono.as_ref().and_then(|mono| {
+                let mono = mono.get();
+
+                mono.first_hit_object()
+                    .is_some_and(|f| f.get().idx == h.idx)
+                    .then(|| {
+                        (
+                            mono.idx,
+                            mono.parent
+                                .as_ref()
+                                .and_then(Weak::upgrade)
+                                .map(|alt| alt_info(&alt)),
+                        )
+                    })
+            });
+
+            let alt_first = color
+                .alternating_mono_pattern
+                .as_ref()
+                .and_then(Weak::upgrade)
+                .and_then(|alt| {
+                    let is_first = alt
+                        .get()
+                        .first_hit_object()
+                        .is_some_and(|f| f.get().idx == h.idx);
+
+                    is_first.then(|| alt_info(&alt))
+                });
+
+            let rep_first = color.repeating_hit_patterns.as_ref().and_then(|rep| {
+                let rep = rep.get();
+
+                rep.first_hit_object()
+                    .is_some_and(|f| f.get().idx == h.idx)
+                    .then_some(rep.repetition_interval)
+            });
+
+            let rhythm_first = h
+                .rhythm_data
+                .same_rhythm_grouped_hit_objects
+                .as_ref()
+                .and_then(|group| {
+                    let is_first = group
+                        .get()
+                        .first_hit_object()
+                        .is_some_and(|f| f.get().idx == h.idx);
+
+                    if !is_first {
+                        return None;
+                    }
+
+                    let mut interval_chain = Vec::new();
+                    let mut curr = Some(crate::util::sync::RefCount::clone(group));
+
+                    while let Some(g) = curr.filter(|_| interval_chain.len() < 4) {
+                        interval_chain.push(g.get().hit_object_interval);
+                        curr = g.get().upgraded_previous();
+                    }
+
+                    let g = group.get();
+
+                    Some(RhythmGroupRecord {
+                        interval_ratio: g.hit_object_interval_ratio,
+                        len: g.hit_objects.len(),
+                        duration: g.duration(),
+                        interval_chain,
+                    })
+                });
+
+            let pattern_first_ratio = h
+                .rhythm_data
+                .same_patterns_grouped_hit_objects
+                .as_ref()
+                .and_then(|group| {
+                    let group = group.get();
+
+                    group
+                        .first_hit_object()
+                        .is_some_and(|f| f.get().idx == h.idx)
+                        .then(|| group.interval_ratio())
+                });
+
+            TaikoSkillRecord {
+                idx: h.idx,
+                start_time: h.start_time,
+                delta_time: h.delta_time,
+                is_hit: h.base_hit_type.is_hit(),
+                effective_bpm: h.effective_bpm,
+                ratio: h.rhythm_data.ratio,
+                prev_start: h.previous(0, &objects).map(|p| p.get().start_time),
+                prev2_start: h.previous(1, &objects).map(|p| p.get().start_time),
+                mono_index,
+                prev_mono_start_2: objects.previous_mono(&h, 1).map(|p| p.get().start_time),
+                prev_mono_start_8: objects.previous_mono(&h, 7).map(|p| p.get().start_time),
+                prev_color_change_start: color
+                    .previous_color_change(&objects)
+                    .map(|p| p.get().start_time),
+                next_color_change_start: color
+                    .next_color_change(&objects)
+                    .map(|p| p.get().start_time),
+                mono_first,
+                alt_first,
+                rep_first,
+                rhythm_first,
+                pattern_first_ratio,
+            }
+        })
+        .collect();
+
+    let values = DifficultyValues::calculate(difficulty, &map, great_hit_window);
+
+    Ok(TaikoSkillTrace {
+        great_hit_window,
+        is_convert: map.is_convert,
+        n_processed,
+        records,
+        rhythm: values.skills.rhythm.verif_object_strains().to_vec(),
+        reading: values.skills.reading.verif_object_strains().to_vec(),
+        color: values.skills.color.verif_object_strains().to_vec(),
+        stamina: values.skills.stamina.verif_object_strains().to_vec(),
+        single_color_stamina: values
+            .skills
+            .single_color_stamina
+            .verif_object_strains()
+            .to_vec(),
+    })
+}
